@@ -706,8 +706,20 @@ func veTruth(streams map[uint64]*index.Stream, tags map[string]string, convNames
 	for _, n := range order {
 		d := defs[n]
 		truth[n] = map[uint64]bool{}
+		var all []*vq.Stream
+		if vq.HasSubQueries(d.cond) {
+			for _, id := range vidx.SortedIDs(vs) {
+				all = append(all, vs[id])
+			}
+		}
 		for id, v := range vs {
-			ok, err := vq.EvalNF(d.cond, v, vq.Env{Ref: d.ref})
+			var ok bool
+			var err error
+			if all != nil {
+				ok, err = vq.EvalNFSub(d.cond, v, all, vq.Env{Ref: d.ref})
+			} else {
+				ok, err = vq.EvalNF(d.cond, v, vq.Env{Ref: d.ref})
+			}
 			if err != nil {
 				return nil, nil, fmt.Errorf("tag %s on stream %d: %v", n, id, err)
 			}
